@@ -28,30 +28,31 @@ import (
 const leaseNanos = 100
 
 type op struct {
-	K       string `json:"k"`
-	C       int    `json:"c,omitempty"`
-	O       int    `json:"o,omitempty"`
-	F       int    `json:"f,omitempty"`
-	L       int    `json:"l,omitempty"`
-	Dt      int    `json:"dt,omitempty"`
-	V       int    `json:"v,omitempty"`
-	Access  int    `json:"acc,omitempty"`
-	Deny    int    `json:"deny,omitempty"`
-	How     int    `json:"how,omitempty"`
-	Claim   int    `json:"claim,omitempty"`
-	Name    int    `json:"name,omitempty"`
-	Park    bool   `json:"park,omitempty"`
-	OpenErr int    `json:"oerr,omitempty"`
-	IoErr   int    `json:"ioerr,omitempty"`
-	SeqMode int    `json:"seqm,omitempty"`
-	SidMode int    `json:"sidm,omitempty"`
-	FhMode  int    `json:"fhm,omitempty"`
-	LType   int    `json:"lt,omitempty"`
-	Off     uint64 `json:"off,omitempty"`
-	Len     uint64 `json:"len,omitempty"`
-	Kind    int    `json:"kind,omitempty"`
-	N       int    `json:"n,omitempty"`
-	New     bool   `json:"new,omitempty"`
+	K        string `json:"k"`
+	C        int    `json:"c,omitempty"`
+	O        int    `json:"o,omitempty"`
+	F        int    `json:"f,omitempty"`
+	L        int    `json:"l,omitempty"`
+	Dt       int    `json:"dt,omitempty"`
+	V        int    `json:"v,omitempty"`
+	Access   int    `json:"acc,omitempty"`
+	Deny     int    `json:"deny,omitempty"`
+	How      int    `json:"how,omitempty"`
+	Claim    int    `json:"claim,omitempty"`
+	Name     int    `json:"name,omitempty"`
+	Park     bool   `json:"park,omitempty"`
+	OpenErr  int    `json:"oerr,omitempty"`
+	IoErr    int    `json:"ioerr,omitempty"`
+	SeqMode  int    `json:"seqm,omitempty"`
+	LSeqMode int    `json:"lseqm,omitempty"` // LOCK with a new lock-owner file: fault of the lock seqid
+	SidMode  int    `json:"sidm,omitempty"`
+	FhMode   int    `json:"fhm,omitempty"`
+	LType    int    `json:"lt,omitempty"`
+	Off      uint64 `json:"off,omitempty"`
+	Len      uint64 `json:"len,omitempty"`
+	Kind     int    `json:"kind,omitempty"`
+	N        int    `json:"n,omitempty"`
+	New      bool   `json:"new,omitempty"`
 
 	fileID uint64 // chosen by the executor among existing state
 }
@@ -168,6 +169,9 @@ func (area) Generate(r *rng.R, thorough bool, index int) json.RawMessage {
 			}
 			rangeOf(&o)
 			o.New = r.Chance(6)
+			if r.Chance(3) {
+				o.LSeqMode = 1 + r.Intn(3)
+			}
 			faults(&o)
 		case x < 60:
 			o.K = "lockt"
@@ -298,16 +302,16 @@ type pendingTask struct {
 }
 
 type exec struct {
-	e       *env
-	program nfsv4.Nfs4Program
-	clients [3]*cClient
-	sentLog []*sent
-	parked  []*pendingTask
-	blocked []*pendingTask
-	nextG   uint64
-	obs     []string
-	info    *hcommon.Info
-	stop    bool
+	e        *env
+	program  nfsv4.Nfs4Program
+	clients  [3]*cClient
+	sentLog  []*sent
+	parked   []*pendingTask
+	blocked  []*pendingTask
+	nextG    uint64
+	obs      []string
+	info     *hcommon.Info
+	stop     bool
 	problems []string
 	prevDump [10]string
 
@@ -880,7 +884,7 @@ func (x *exec) run(o op) {
 			if o.SidMode == 2 && o.SeqMode == 2 {
 				lclient++
 			}
-			r := &mreq{kind: "locknew", ltype: uint32(o.LType), off: o.Off, length: o.Len, sid: sid, seq: seqFor(o.SeqMode, own.next), lseq: low.next,
+			r := &mreq{kind: "locknew", ltype: uint32(o.LType), off: o.Off, length: o.Len, sid: sid, seq: seqFor(o.SeqMode, own.next), lseq: seqFor(o.LSeqMode, low.next),
 				lclient: lclient, lowner: uint64(o.L % 3)}
 			logSend(&sent{fh: x.fhFor(o, id), req: r, onReply: func(main interface{}, t *task) {
 				res := main.(nfsv4.Lock4res)
